@@ -39,7 +39,12 @@ class P:
         fixed = []
         for a, b in [("a && b\n", "a && \\\n\nb\n"), ("a | b\n", "a | \\\n \n b\n"),
                      ("a b\n", "a \\\n b\n"), ("a;b\n", "a\nb\n"), ("if a; then b; fi\n", "if a # c\nthen\n\n b\nfi\n"), ("a|b\n", "a |\n\n b\n"),
-                     ("a && b\n", "a && # c\n b\n"), ("{ a; }\n", "{\n a\n}\n"), ("for i in 1 2; do a; done\n", "for i in 1 2\ndo\na\ndone\n")]:
+                     ("a && b\n", "a && # c\n b\n"), ("{ a; }\n", "{\n a\n}\n"), ("for i in 1 2; do a; done\n", "for i in 1 2\ndo\na\ndone\n"),
+                     # a word directly before a redirection operator: only a word that is one all-digit literal is an IO number
+                     ("echo 2\"\">x\n", "echo 2\"\" >x\n"), ("echo 1$a>x\n", "echo 1$a >x\n"), ("echo 3$(a)<y\n", "echo 3$(a) <y\n"), ("echo 4`a`>>z\n", "echo 4`a` >>z\n"),
+                     ("echo 5$((1))>x\n", "echo 5$((1)) >x\n"), ("echo a2>x\n", "echo a2 >x\n"), ("echo 2a>x\n", "echo 2a >x\n"), ("echo '2'>x\n", "echo '2' >x\n"),
+                     ("echo \\2>x\n", "echo \\2 >x\n"), ("echo 2''<x\n", "echo 2'' <x\n"), ("echo ${a}2>x\n", "echo ${a}2 >x\n"), ("echo 22\"a\">&2\n", "echo 22\"a\" >&2\n"),
+                     ("echo 2>x\n", "echo 2> x\n"), ("echo 2 >x\n", "echo 2  > x\n"), ("echo 12<<E\nb\nE\n", "echo 12<< E\nb\nE\n")]:
             import re
             cb = re.findall(r"#([^\n]*)", b)
             fixed.append("%s\t\t%s\t%s" % (hx(a), hx(b), ",".join("c" + hx(x) for x in cb)))
